@@ -34,6 +34,7 @@ func init() {
 	})
 	c16Path = eng.NewKind(c, "path", judgePath)
 	c16Soak = eng.NewKind(c, "soak", judgeSoakPath)
+	c16Once = eng.NewKind(c, "receiver-once", judgeOnceRecv)
 }
 
 type c16S struct {
@@ -439,8 +440,47 @@ func judgeSoakPath(c SoakPathCase) *eng.Fail {
 	return nil
 }
 
+// OnceRecvCase: a receiver with a side effect (a recording host function) under . and !.
+type OnceRecvCase struct {
+	Src   string `json:"src"`
+	Calls int    `json:"calls"`
+}
+
+var c16Once *eng.Kind[OnceRecvCase]
+
+func judgeOnceRecv(c OnceRecvCase) *eng.Fail {
+	calls := 0
+	data := map[string]interface{}{
+		"mk": func() (interface{}, error) {
+			calls++
+			return map[string]interface{}{"a": map[string]interface{}{"b": float64(calls)}, "n": nil}, nil
+		},
+		"nul": func() (interface{}, error) { calls++; return nil, nil },
+	}
+	o, err := evalWith(c.Src, data)
+	if err != nil || o.panicked {
+		return eng.F("C16/eval", "%s: %v %s", c.Src, err, o.panicMsg)
+	}
+	if calls != c.Calls {
+		return eng.F("C16/receiver-evaluated-twice", "%s: the host functions in receiver position ran %d times, the formula calls them %d times (result %s, error %v)", c.Src, calls, c.Calls, show(o.val), o.err)
+	}
+	outcome(fmt.Sprint("once ", c.Calls))
+	return nil
+}
+
 func runC16(w *eng.W) {
 	W = w
+	if w.Take() {
+		for _, c := range []OnceRecvCase{{"mk().a", 1}, {"mk()!.a", 1}, {"mk()!.a!.b", 1}, {"mk().a.b + mk()!.a!.b", 2}, {"[mk()!.a, mk().n, mk()!.n]", 3}, {"nul().x", 1}, {"nul()!.x", 1}, {"mk()!.n!.x", 1}, {"mk()!.a!.b!.c", 1},
+			{"(mk())!.a.b", 1}, {"mk()!.a.b!.c.d", 1}, {"mk()!.a ?? mk()!.a", 2}} {
+			w.State(1)
+			w.Trans(1)
+			w.Trace(1)
+			w.Note("leg:receiver-once", 1)
+			w.Sample("receiver-once", c)
+			c16Once.Do(w, c)
+		}
+	}
 	if w.Take() {
 		chain := "missing!.a1"
 		for i := 2; i <= 120; i++ {
